@@ -479,20 +479,30 @@ pub fn run(repo: &str, unit_path: &str, canary: bool) -> std::result::Result<Run
                 }
                 let sigonly = o.contains_key("sigonly");
                 let is_trait_impl = o.contains_key("trait");
-                let passes: Vec<bool> = if canary && !sigonly && !is_trait_impl { vec![false, true] } else { vec![false] };
+                // pass kinds: 0 = real, 1 = canary `ensures false`, 2+n = canary `assert(false)` in loop n
+                let mut passes: Vec<usize> = vec![0];
+                if canary && !sigonly && !is_trait_impl {
+                    passes.push(1);
+                    for n in 0..mk.next_loop {
+                        passes.push(2 + n);
+                    }
+                }
                 let mut rec = json!({});
-                for is_can in passes {
+                let mut canaries: Vec<J> = vec![];
+                for pass in passes {
+                    let is_can = pass > 0;
                     let hdr_start = em.out.len() + 1;
-                    let sig_here = if is_can { sigtxt.replacen(&format!("fn {newname}"), &format!("fn {newname}__vxcanary"), 1) } else { sigtxt.clone() };
+                    let suffix = if pass == 0 { String::new() } else if pass == 1 { "__vxcanary".to_string() } else { format!("__vxcanary_loop{}", pass - 2) };
+                    let sig_here = if is_can { sigtxt.replacen(&format!("fn {newname}"), &format!("fn {newname}{suffix}"), 1) } else { sigtxt.clone() };
                     if is_can {
                         for a in &attr_lines {
                             em.push_raw(a);
                         }
                     }
-                    em.push_raw(&format!("{pad}// vx: fn {target} body copied from {file}:{src_line}{}", if is_can { " (CANARY COPY: ensures false)" } else { "" }));
+                    em.push_raw(&format!("{pad}// vx: fn {target} body copied from {file}:{src_line}{}", if is_can { " (CANARY COPY)" } else { "" }));
                     em.push_raw(&format!("{pad}{sig_here}"));
                     let mut ctext = contract.join("\n");
-                    if is_can {
+                    if pass == 1 {
                         if let Some(pos) = find_kw(&ctext, "ensures") {
                             ctext.insert_str(pos + "ensures".len(), " false,");
                         } else if let Some(pos) = find_kw(&ctext, "decreases") {
@@ -511,7 +521,7 @@ pub fn run(repo: &str, unit_path: &str, canary: bool) -> std::result::Result<Run
                         continue;
                     }
                     let mut sp = Splices::default();
-                    sp.canary = is_can;
+                    sp.canary_loop = if pass >= 2 { Some(pass - 2) } else { None };
                     sp.loops = loops.clone();
                     for (k, (_, txt)) in ats.iter().enumerate() {
                         sp.ats.insert(k, txt.clone());
@@ -523,8 +533,7 @@ pub fn run(repo: &str, unit_path: &str, canary: bool) -> std::result::Result<Run
                     em.push_lines(&bl, &file, &target);
                     let end = em.out.len();
                     if is_can {
-                        rec["canary_start"] = json!(hdr_start);
-                        rec["canary_end"] = json!(end);
+                        canaries.push(json!({"kind": if pass == 1 { "ensures_false".to_string() } else { format!("loop{}", pass - 2) }, "start": hdr_start, "end": end}));
                     } else {
                         rec = json!({
                             "fn": target, "file": file, "src_line": src_line,
@@ -536,6 +545,9 @@ pub fn run(repo: &str, unit_path: &str, canary: bool) -> std::result::Result<Run
                             "trait_impl": is_trait_impl,
                         });
                     }
+                }
+                if !sigonly {
+                    rec["canaries"] = json!(canaries);
                 }
                 fucs.push(rec);
             }
